@@ -20,12 +20,17 @@ pub mod errors {
     }
 }
 
+//@trusted T2 the derived PartialEq of std::io::ErrorKind is structural equality (needed for `err.kind() == io::ErrorKind::Interrupted` in util::fill_buffer*)
+// (the enum lives at the crate root because `derive(Structural)` crashes this Verus version inside a nested
+//  module - same device as shims/io_pkterr.rs, shims/io_progress.rs; it is re-exported as io::ErrorKind)
+#[derive(PartialEq, Eq, Clone, Copy, Structural)]
+pub enum IoErrorKind { Interrupted, UnexpectedEof, InvalidInput, InvalidData, Other }
+
 pub mod io {
     use super::*;
     pub struct Error { pub k: ErrorKind }
     pub type Result<T> = core::result::Result<T, Error>;
-    #[derive(PartialEq, Eq, Clone, Copy)]
-    pub enum ErrorKind { Interrupted, UnexpectedEof, InvalidInput, InvalidData, Other }
+    pub use super::IoErrorKind as ErrorKind;
     impl Error {
         #[verifier::external_body]
         pub fn new_opaque() -> (e: Error) ensures e.k == ErrorKind::Other { unimplemented!() }
@@ -35,9 +40,14 @@ pub mod io {
         pub fn kind(&self) -> (k: ErrorKind) ensures k == self.k { unimplemented!() }
     }
 
-    //@trusted T2 std::io::Read: read(buf) = Ok(n) delivers the next n <= buf.len() bytes of the remaining content rest(); n == 0 only for an empty buf or at end of stream; n otherwise unconstrained (all short-read schedules). Bytes of buf beyond n are unchanged. Err: nothing is known about the state afterwards.
+    //@trusted T2 std::io::Read: read(buf) = Ok(n) delivers the next n <= buf.len() bytes of the remaining content rest(); n == 0 only for an empty buf or at end of stream; n otherwise unconstrained (all short-read schedules). Bytes of buf beyond n are unchanged. Err: nothing is known about the state afterwards (unless std_err() holds, see next line).
+    //@trusted T2 sources handed to the library honour std::io::Read's error contract when std_err() holds: an Err consumed nothing and left the buffer alone, and ErrorKind::Interrupted is answered finitely often (intr_budget); fill_buffer/fill_buffer_bytes are proved under `requires source.std_err()`; termination of their retry loops is relative to that budget (std's read_exact has the same caveat)
     pub trait Read {
         spec fn rest(&self) -> Seq<u8>;
+        /// environment assumption switch: this reader honours std's documented error contract
+        open spec fn std_err(&self) -> bool { false }
+        /// how many more times this reader may answer Err(Interrupted) (finite by assumption)
+        open spec fn intr_budget(&self) -> nat { 0 }
         fn read(&mut self, buf: &mut [u8]) -> (r: Result<usize>)
             ensures
                 final(buf)@.len() == old(buf)@.len(),
@@ -47,17 +57,25 @@ pub mod io {
                         && final(buf)@.subrange(0, n as int) == old(self).rest().subrange(0, n as int)
                         && final(buf)@.subrange(n as int, final(buf)@.len() as int) == old(buf)@.subrange(n as int, old(buf)@.len() as int)
                         && final(self).rest() == old(self).rest().skip(n as int)
-                        && (n == 0 ==> (old(buf)@.len() == 0 || old(self).rest().len() == 0)),
-                    Err(_) => true,
+                        && (n == 0 ==> (old(buf)@.len() == 0 || old(self).rest().len() == 0))
+                        && (old(self).std_err() ==> final(self).std_err() && final(self).intr_budget() <= old(self).intr_budget()),
+                    Err(e) => old(self).std_err() ==>
+                        final(self).rest() == old(self).rest()
+                        && final(buf)@ == old(buf)@
+                        && final(self).std_err()
+                        && final(self).intr_budget() <= old(self).intr_budget()
+                        && (e.k == ErrorKind::Interrupted ==> final(self).intr_budget() < old(self).intr_budget()),
                 };
     }
     impl<R: Read> Read for &mut R {
         open spec fn rest(&self) -> Seq<u8> { (**self).rest() }
+        open spec fn std_err(&self) -> bool { (**self).std_err() }
+        open spec fn intr_budget(&self) -> nat { (**self).intr_budget() }
         #[verifier::external_body]
         fn read(&mut self, buf: &mut [u8]) -> (r: Result<usize>) { unimplemented!() }
     }
 
-    //@trusted T2 std::io::BufRead: fill_buf() = Ok(b) exposes a non-empty prefix b of rest() (empty only at end of stream) without consuming; consume(amt) requires amt <= length of the last fill_buf result and drops amt bytes
+    //@trusted T2 std::io::BufRead: fill_buf() = Ok(b) exposes a non-empty prefix b of rest() (empty only at end of stream) without consuming; consume(amt) requires amt <= length of the last fill_buf result and drops amt bytes; under std_err() an Err of fill_buf leaves rest()/buffered() alone and Interrupted uses up intr_budget; consume keeps std_err() and intr_budget
     pub trait BufRead: Read {
         spec fn buffered(&self) -> nat;
         /// what is buffered is part of what remains
@@ -68,13 +86,20 @@ pub mod io {
                     && b@ == final(self).rest().subrange(0, b@.len() as int)
                     && (b@.len() == 0 ==> final(self).rest().len() == 0)
                     && final(self).rest() == old(self).rest()
-                    && final(self).buffered() == b@.len(),
-                Err(_) => true,
+                    && final(self).buffered() == b@.len()
+                    && (old(self).std_err() ==> final(self).std_err() && final(self).intr_budget() <= old(self).intr_budget()),
+                Err(e) => old(self).std_err() ==>
+                    final(self).rest() == old(self).rest()
+                    && final(self).buffered() == old(self).buffered()
+                    && final(self).std_err()
+                    && final(self).intr_budget() <= old(self).intr_budget()
+                    && (e.k == ErrorKind::Interrupted ==> final(self).intr_budget() < old(self).intr_budget()),
             };
         fn consume(&mut self, amt: usize)
             requires amt <= old(self).buffered(),
             ensures final(self).rest() == old(self).rest().skip(amt as int),
-                    final(self).buffered() == old(self).buffered() - amt;
+                    final(self).buffered() == old(self).buffered() - amt,
+                    old(self).std_err() ==> final(self).std_err() && final(self).intr_budget() <= old(self).intr_budget();
     }
     impl<R: BufRead> BufRead for &mut R {
         open spec fn buffered(&self) -> nat { (**self).buffered() }
